@@ -75,7 +75,8 @@ class Label(HtmlControl):
   def _to_html(self, **kwargs) -> Html:
     text_elem = Html.element(
         'a' if self.link is not None else 'span',
-        [self.text],
+        # A str text is text, not markup (as in `Label.update`).
+        [Html.escape(self.text) if isinstance(self.text, str) else self.text],
         id=self.element_id(),
         href=self.link,
         css_classes=['label'] + self.css_classes,
